@@ -24,45 +24,102 @@ def _parse_strace(path, info):
         if not c:
             continue
         events.append((c.group(1), c.group(2), c.group(3), c.group(4)))
-    out = {}
+    out, detail, foreign = {}, {}, {}
     cur = None
+    pos = {}     # (mode, fd path) -> bytes written so far through sequential writes
+    size = {}    # (mode, fd path) -> current file size as far as the trace tells
     for sc, args, ret, tail in events:
         if sc in ("openat", "open", "creat"):
             pm = re.search(r'"([^"]*)"', args)
             pth = pm.group(1) if pm else ""
             if pth.endswith("C07-BEGIN") and "O_CREAT" in args:
                 cur = os.path.basename(os.path.dirname(pth))
-                out[cur] = []
+                out[cur], detail[cur], foreign[cur] = [], [], []
                 continue
             if pth.endswith("C07-END"):
                 cur = None
                 continue
-            if cur and pth in names[cur] and "O_CREAT" in args and not ret.startswith("-"):
-                out[cur].append("Create %s" % names[cur][pth])
+            if cur and pth in names[cur] and not ret.startswith("-"):
+                if "O_CREAT" in args:
+                    out[cur].append("Create %s" % names[cur][pth])
+                    detail[cur].append(dict(op="create", p=names[cur][pth]))
+                    pos[(cur, pth)], size[(cur, pth)] = 0, 0
+                elif "O_TRUNC" in args or "O_WRONLY" in args or "O_RDWR" in args:
+                    foreign[cur].append("%s(%s) on %s" % (sc, args[-60:], names[cur][pth]))
             continue
         if not cur:
             continue
-        if sc in ("write", "pwrite64"):
-            fm = re.match(r"^\d+<([^>]*)>", args)
-            if fm and fm.group(1) in names[cur] and not ret.startswith("-"):
-                out[cur].append("Append %s %s" % (names[cur][fm.group(1)], ret))
+        fm = re.match(r"^\d+<([^>]*)>", args)
+        fdp = fm.group(1) if fm else None
+        if sc == "write":
+            if fdp in names[cur] and not ret.startswith("-"):
+                n = int(ret)
+                off = pos.get((cur, fdp), 0)
+                if off != size.get((cur, fdp), 0):
+                    foreign[cur].append("write of %d bytes at offset %d into %s of size %d (not an append)" % (n, off, names[cur][fdp], size.get((cur, fdp), 0)))
+                out[cur].append("Append %s %s" % (names[cur][fdp], ret))
+                detail[cur].append(dict(op="write", p=names[cur][fdp], off=off, n=n))
+                pos[(cur, fdp)] = off + n
+                size[(cur, fdp)] = max(size.get((cur, fdp), 0), off + n)
+        elif sc == "pwrite64":
+            if fdp in names[cur] and not ret.startswith("-"):
+                n = int(ret)
+                om = re.search(r",\s*(\d+)\s*$", args)
+                off = int(om.group(1)) if om else -1
+                if off != size.get((cur, fdp), 0):
+                    foreign[cur].append("pwrite64 of %d bytes at offset %d into %s of size %d (not an append)" % (n, off, names[cur][fdp], size.get((cur, fdp), 0)))
+                out[cur].append("Append %s %s" % (names[cur][fdp], ret))
+                detail[cur].append(dict(op="write", p=names[cur][fdp], off=off, n=n))
+                size[(cur, fdp)] = max(size.get((cur, fdp), 0), off + n)
+        elif sc == "lseek":
+            if fdp in names[cur] and not ret.startswith("-"):
+                pos[(cur, fdp)] = int(ret)
+        elif sc in ("ftruncate", "fallocate", "sendfile", "copy_file_range", "pwritev", "writev", "pwritev2"):
+            if fdp in names[cur] and not ret.startswith("-"):
+                nm = re.search(r",\s*(\d+)\s*$", args)
+                n = int(nm.group(1)) if nm else -1
+                foreign[cur].append("%s(%s, %s) = %s" % (sc, names[cur][fdp], args.split(",", 1)[1].strip() if "," in args else "", ret))
+                if sc == "ftruncate":
+                    detail[cur].append(dict(op="truncate", p=names[cur][fdp], n=n))
+                    size[(cur, fdp)] = n
+                else:
+                    detail[cur].append(dict(op="other", p=names[cur][fdp], what=sc))
+        elif sc == "truncate":
+            ps = re.findall(r'"([^"]*)"', args)
+            if ps and ps[0] in names[cur] and not ret.startswith("-"):
+                nm = re.search(r",\s*(\d+)\s*$", args)
+                n = int(nm.group(1)) if nm else -1
+                foreign[cur].append("truncate(%s, %d)" % (names[cur][ps[0]], n))
+                detail[cur].append(dict(op="truncate", p=names[cur][ps[0]], n=n))
+                size[(cur, ps[0])] = n
+        elif sc in ("fsync", "fdatasync"):
+            pass
         elif sc == "close":
-            fm = re.match(r"^\d+<([^>]*)>", args)
-            if fm and fm.group(1) in names[cur]:
-                out[cur].append("Close %s" % names[cur][fm.group(1)])
+            if fdp in names[cur]:
+                out[cur].append("Close %s" % names[cur][fdp])
+                detail[cur].append(dict(op="close", p=names[cur][fdp]))
         elif sc in ("linkat", "link"):
             ps = re.findall(r'"([^"]*)"', args)
             if len(ps) == 2 and ps[0] in names[cur] and ps[1] in names[cur] and not ret.startswith("-"):
                 out[cur].append("Link %s %s" % (names[cur][ps[0]], names[cur][ps[1]]))
+                detail[cur].append(dict(op="link", p=names[cur][ps[0]], q=names[cur][ps[1]]))
         elif sc in ("symlinkat", "symlink"):
             ps = re.findall(r'"([^"]*)"', args)
             if len(ps) == 2 and ps[1] in names[cur]:
                 out[cur].append("Symlink PEOds %s" % names[cur][ps[1]])
+                detail[cur].append(dict(op="symlink", q=names[cur][ps[1]]))
         elif sc in ("unlinkat", "unlink"):
             ps = re.findall(r'"([^"]*)"', args)
-            if ps and ps[0] in names[cur]:
+            if ps and ps[0] in names[cur] and not ret.startswith("-"):
                 out[cur].append("Unlink %s" % names[cur][ps[0]])
-    return out
+                detail[cur].append(dict(op="unlink", p=names[cur][ps[0]]))
+        elif sc in ("renameat", "rename", "renameat2"):
+            ps = re.findall(r'"([^"]*)"', args)
+            hit = [names[cur][x] for x in ps if x in names[cur]]
+            if hit and not ret.startswith("-"):
+                foreign[cur].append("%s involving %s" % (sc, ",".join(hit)))
+                detail[cur].append(dict(op="other", p=hit[0], what=sc))
+    return out, detail, foreign
 
 
 def extra(ctx):
@@ -76,7 +133,7 @@ def extra(ctx):
     trace = os.path.join(work, "strace.txt")
     env = dict(ctx["GOENV"])
     env["VERIF_C07_TRACE_DIR"] = work
-    cmd = ["strace", "-f", "--seccomp-bpf", "-y", "-s", "0", "-e", "trace=openat,open,creat,write,pwrite64,close,fsync,linkat,link,symlinkat,symlink,unlinkat,unlink,renameat,rename",
+    cmd = ["strace", "-f", "--seccomp-bpf", "-y", "-s", "0", "-e", "trace=openat,open,creat,write,pwrite64,writev,pwritev,pwritev2,close,fsync,fdatasync,ftruncate,truncate,fallocate,lseek,sendfile,copy_file_range,linkat,link,symlinkat,symlink,unlinkat,unlink,renameat,renameat2,rename",
            "-o", trace, binp, "-test.run", "^TestVerifC07Trace$", "-test.count", "1"]
     # strace does not always return in this sandbox after the traced Go binary has exited (it keeps waiting on an
     # already dead thread): wait for the test to write its result file and the last marker, then stop strace.
@@ -110,7 +167,11 @@ def extra(ctx):
         problems.append(dict(layer="L2-translator", what="T-fs: the put could not be traced with strace (rc=%d)" % rc, detail=out[-1500:]))
         return dict(problems=problems, coverage=cov)
     info = json.load(open(ipath))
-    eff = _parse_strace(trace, info)
+    eff, detail, foreign = _parse_strace(trace, info)
+    for mode in ("q4", "ods"):
+        if foreign.get(mode):
+            problems.append(dict(layer="L2-translator", what="T-fs: the real put (%s) performs file-system effects on the block files that are not effects of the modelled put program (create, appending writes, close, link): %s" % (mode, "; ".join(foreign[mode][:6]))))
+    cov["tfs_foreign_effects"] = {m: foreign.get(m, [])[:10] for m in ("q4", "ods")}
     lines = ["(** GENERATED on every run by lib/props/c07.py from an strace of the real Store.PutODSQ4 / PutODS (T-fs). *)",
              "From Coq Require Import List NArith.", "From CN Require Import Store.Crash Store.CrashProofs.", "Import ListNotations.", "Open Scope N_scope.", ""]
     for mode, cmode in (("q4", "MQ4"), ("ods", "MOds")):
@@ -131,7 +192,25 @@ def extra(ctx):
     if not cov["tfs_observed_is_instance"]:
         problems.append(dict(layer="L2-translator", what="T-fs: the observed effect sequence of the real put is not an instance of the modelled put program (Gen/PutEffects.v does not check)", detail=out[-1500:]))
     cov["tfs_sample"] = dict(q4=eff.get("q4", [])[:12], ods=eff.get("ods", [])[:8])
-    return dict(problems=problems, violations=[], coverage=cov)
+    # L3 on the observed trace: every prefix of the effect sequence the real put was seen to perform is materialised on
+    # disk (bytes taken from the complete files at the traced offsets) and given to the real store: restart, lookup,
+    # re-put either way, lookup, remove.
+    violations = []
+    epath = os.path.join(work, "effects.json")
+    json.dump(detail, open(epath, "w"))
+    eout = os.path.join(work, "effects_out")
+    env2 = dict(ctx["GOENV"])
+    env2.update(VERIF_OUT=eout, VERIF_SEED=str(ctx["seed"]), VERIF_TIER=ctx["tier"], VERIF_C07_EFFECTS=epath)
+    rc, out = ctx["sh"]([binp, "-test.run", "^TestVerifC07Effects$", "-test.count", "1", "-test.timeout", "900s"], cwd=os.path.join(ctx["REPO"], "store"), env=env2, timeout=1000)
+    ctx["log"].append("$ TestVerifC07Effects rc=%d\n%s" % (rc, out[-3000:]))
+    rp = os.path.join(eout, "result.json")
+    if rc != 0 or not os.path.exists(rp):
+        problems.append(dict(layer="L2-run", what="T-fs: the crash states of the observed effect sequence could not be evaluated (rc=%d)" % rc, detail=out[-1500:]))
+    else:
+        res = json.load(open(rp))
+        violations = res.get("l3_violations", [])
+        cov["tfs_prefix_states"] = res.get("extra", {}).get("prefix_states", 0)
+    return dict(problems=problems, violations=violations, coverage=cov)
 
 
 SPEC = dict(
